@@ -5,11 +5,15 @@
    Objects: [is_partition_model] / [modularity_abs] (Spec/PartitionDef.v) are the computations of
    partitions.rs (after the repair of F8) written on a node list and an edge multiset;
    [is_partition] / [modularity] (Model/Partition.v) are the transcription over the twelve-field
-   state that the correspondence check compares with the implementation; on every generated case
-   the check also evaluates that the two layers agree (observation kind 210). *)
+   state that the correspondence check compares with the implementation.  Round 2: the two layers
+   are proved equal on every state satisfying the coherence invariant WF, hence on every state
+   reachable through the public mutation API (C12_*_reachable below: the end-to-end statements over
+   get_all_node_names / get_all_edges); the per-case evaluation of the same link (observation kind
+   210) is kept as a tie between model and code. *)
 From Coq Require Import List Bool ZArith QArith.
-From GV Require Import Base.Outcome Base.AMap Model.GState Model.Partition Spec.PartitionDef
-     Proofs.PartitionOk Proofs.PartitionStateOk.
+From GV Require Import Base.Outcome Base.AMap Model.GState Model.Query Model.Partition Spec.History
+     Spec.PartitionDef Proofs.WFDefs Proofs.HistoryOk Proofs.PartitionOk Proofs.PartitionStateOk
+     Proofs.ModularityStateOk.
 Import ListNotations.
 
 Section C12.
@@ -83,3 +87,95 @@ Theorem C12_rejects : forall (T A : Type) (teqb tltb : T -> T -> bool) (g : gsta
   is_partition teqb g comms = Ok false ->
   modularity teqb tltb g comms weighted r = Err NotAPartition.
 Proof. exact modularity_rejects. Qed.
+
+(* ---------------------------------------------------------------------------------------------
+   Round 2: end-to-end statements on the twelve-field state, for every state reachable by any
+   history of add_node / add_nodes / add_edge / add_edges from the empty graph (hence also every
+   graph built by new_from_nodes_and_edges and every derived graph), arbitrary name type.
+   --------------------------------------------------------------------------------------------- *)
+Section C12_state.
+  Context {T A : Type}.
+  Variable teqb : T -> T -> bool.
+  Variable tltb : T -> T -> bool.
+  Hypothesis teqb_spec : forall x y, teqb x y = true <-> x = y.
+  Hypothesis tltb_asym : forall x y, tltb x y = true -> tltb y x = false.
+  Hypothesis tltb_total : forall x y, tltb x y = false -> tltb y x = false -> x = y.
+
+  (* the coherence hypothesis of C12_is_partition_state is a consequence of the invariant *)
+  Theorem C12_WF_nodes_coherent : forall g : gstate T A, WF teqb tltb g -> nodes_coherent teqb g.
+  Proof. exact (WF_nodes_coherent teqb tltb teqb_spec). Qed.
+
+  (* is_partition over nodes_map / nodes_map_rev returns Ok b, and b = true exactly for the
+     partitions of the graph's node names *)
+  Theorem C12_is_partition_reachable : forall s (g : gstate T A) comms,
+    reachable teqb tltb s g -> Forall (@NoDup T) comms ->
+    exists b, is_partition teqb g comms = Ok b /\
+              (b = true <-> is_partition_spec (get_all_node_names g) comms).
+  Proof.
+    intros s g comms Hr Hc. pose proof (WF_reachable teqb tltb teqb_spec tltb_asym tltb_total s g Hr) as W.
+    exists (is_partition_model teqb (get_all_node_names g) comms). split.
+    - exact (is_partition_WF teqb tltb teqb_spec g comms W).
+    - exact (is_partition_model_correct teqb teqb_spec _ _ (wf_nodup _ _ _ W) Hc).
+  Qed.
+
+  (* the twelve-field computation (degree maps, get_subgraph, size) equals the list-level
+     computation over the node names and the stored edge list *)
+  Theorem C12_modularity_state_abs : forall (g : gstate T A) comms weighted gamma es,
+    WF teqb tltb g -> wedges_of weighted (get_all_edges g) = Some es ->
+    is_partition_model teqb (get_all_node_names g) comms = true -> ~ total_w es == 0 ->
+    exists q, modularity teqb tltb g comms weighted gamma = Ok (Some q) /\
+              q == modularity_abs teqb (directed (sp g)) (get_all_node_names g) es gamma comms.
+  Proof. exact (modularity_WF_abs teqb tltb teqb_spec tltb_total). Qed.
+
+  (* modularity() of a reachable graph: Newman's formula over get_all_edges for every partition
+     (real weights when weighted, non-zero total weight) ... *)
+  Theorem C12_modularity_reachable : forall s (g : gstate T A) comms weighted gamma es,
+    reachable teqb tltb s g -> Forall (@NoDup T) comms ->
+    wedges_of weighted (get_all_edges g) = Some es ->
+    is_partition_spec (get_all_node_names g) comms -> ~ total_w es == 0 ->
+    exists q, modularity teqb tltb g comms weighted gamma = Ok (Some q) /\
+              q == newman teqb (directed s) es gamma comms.
+  Proof.
+    intros s g comms weighted gamma es Hr.
+    rewrite <- (reachable_sp teqb tltb teqb_spec tltb_asym tltb_total s g Hr).
+    apply (modularity_WF_newman teqb tltb teqb_spec tltb_total).
+    exact (WF_reachable teqb tltb teqb_spec tltb_asym tltb_total s g Hr).
+  Qed.
+
+  (* ... and an error exactly when the family is not a partition, the error being NotAPartition
+     (whatever the weights) *)
+  Theorem C12_not_partition_iff_reachable : forall s (g : gstate T A) comms weighted gamma k,
+    reachable teqb tltb s g -> Forall (@NoDup T) comms ->
+    (modularity teqb tltb g comms weighted gamma = Err k <->
+     k = NotAPartition /\ ~ is_partition_spec (get_all_node_names g) comms).
+  Proof.
+    intros s g comms weighted gamma k Hr.
+    apply (modularity_WF_err_iff teqb tltb teqb_spec tltb_total).
+    exact (WF_reachable teqb tltb teqb_spec tltb_asym tltb_total s g Hr).
+  Qed.
+
+  (* the degenerate values of a partition, as the implementation's binary64 arithmetic yields them
+     (None = NaN): total weight 0 with non-negative weights (in particular an edgeless graph, or
+     weighted = false on a graph without edges) gives 0/0; an edge without weight under
+     weighted = true makes the result NaN; the empty family on the empty graph gives 0.  With
+     C12_modularity_reachable this determines modularity() on every reachable graph with
+     non-negative weights *)
+  Theorem C12_modularity_degenerate_reachable : forall s (g : gstate T A) comms weighted gamma,
+    reachable teqb tltb s g -> Forall (@NoDup T) comms ->
+    is_partition_spec (get_all_node_names g) comms ->
+    (forall es, wedges_of weighted (get_all_edges g) = Some es ->
+                (forall e, In e es -> 0 <= ww e) -> total_w es == 0 ->
+                modularity teqb tltb g comms weighted gamma =
+                Ok (match comms with [] => Some 0 | _ => None end)) /\
+    (weighted = true -> (exists e, In e (get_all_edges g) /\ ew e = None) ->
+     modularity teqb tltb g comms weighted gamma = Ok None).
+  Proof.
+    intros s g comms weighted gamma Hr Hc Hp.
+    pose proof (WF_reachable teqb tltb teqb_spec tltb_asym tltb_total s g Hr) as W.
+    apply (is_partition_model_correct teqb teqb_spec _ _ (wf_nodup _ _ _ W) Hc) in Hp.
+    split.
+    - intros es Hes Hpos Hz.
+      exact (modularity_WF_zero teqb tltb teqb_spec tltb_total g comms weighted gamma es W Hes Hp Hpos Hz).
+    - intros -> He. exact (modularity_WF_nan teqb tltb teqb_spec tltb_total g comms gamma W Hp He).
+  Qed.
+End C12_state.
